@@ -52,7 +52,7 @@ def make_cases(ctx, cid, en, flags, mode=None):
              ["jsons"] + [l for _, l in jsons], ["sqls"] + [l for _, l in sqls],
              ["ints"] + [[tv] + [str(v) for v in vs] for tv, vs in main_ints], ["encs"] + [str(v) for v in encs]]
     args = ["enum"] + ["-" + f for f in flags] + lay["sel"]
-    main = {"id": cid, "en": en, "decl": decl, "flags": flags, "files": lay["files"], "mode": lay["mode"],
+    main = {"id": cid, "en": en, "decl": decl, "flags": flags, "files": lay["files"], "mode": lay["mode"] + ("+spread" if lay["spread"] and lay["mode"].startswith("file") else ""),
             "runs": [{"args": args}],
             "oracle": {".": enumgen.oracle_c12(en, decl, flags, target, strs, jsons, sqls, main_ints, encs, tints)},
             "sexp": enumgen.case_sexp(cid, "c12", en, extra), "cmd": "shoot " + " ".join(args), "kind": "main",
@@ -182,7 +182,7 @@ def replay(ctx, payload):
     if not en:
         print(payload.get("case") or payload)
         return 0
-    main, sub = make_cases(ctx, "replay", en, list(payload.get("flags") or []), mode=payload.get("mode"))
+    main, sub = make_cases(ctx, "replay", en, list(payload.get("flags") or []), mode=((payload.get("mode") or "").split("+")[0] or None))
     for fn, src in main["files"].items():
         print("---- %s\n%s" % (fn, src))
     cases, impl, model = run_cases(ctx, [(main, sub)])
